@@ -50,6 +50,9 @@ C.STRUCT_ATTR[("ObjV", "base_and_exponent")] = lambda ip, o: (o.f["base"], o.f["
 
 
 def model_Counter_term(ip, args, kwargs):
+    if not args and not kwargs:
+        # empty Counter filled by c[idx] += n: total map Index -> Int, default 0
+        return Struct("CounterMap", arr=z3.K(IdxSort, z3.IntVal(0)))
     v = args[0]
     if isinstance(v, Struct) and v.cls == "TermIdx":
         return Struct("IdxCounter", term=v.f["term"])
@@ -61,6 +64,14 @@ def counter_subscript(ip, obj, idx):
 
 
 C.STRUCT_SUBSCRIPT["IdxCounter"] = counter_subscript
+C.STRUCT_SUBSCRIPT["CounterMap"] = lambda ip, obj, idx: wrap(z3.Select(obj.f["arr"], idx.t))
+
+
+def _countermap_store(ip, obj, idx, v):
+    obj.f["arr"] = z3.Store(obj.f["arr"], idx.t, term(v))
+
+
+C.STRUCT_STORE["CounterMap"] = _countermap_store
 
 
 def model_combinations(ip, args, kwargs):
